@@ -30,7 +30,7 @@ def collect(tag, rounds=3):
         subprocess.run(["/venv/bin/python", "-m", "harness.nbrun"] + nbs, cwd=VERIF, env=env, stdout=subprocess.DEVNULL,
                        stderr=subprocess.DEVNULL, timeout=1800)
     out = {}
-    for fam in ("c01", "clifford", "stab"):
+    for fam in ("c01", "clifford", "stab", "c14", "c19"):
         p = os.path.join(d, fam + ".ndjson")
         out[fam] = [json.loads(l) for l in open(p)] if os.path.exists(p) else []
     return out
